@@ -46,6 +46,9 @@ def typeAlignSwitch (typID : Nat) : Option Nat :=
   else if typID ∈ [1186, 1266] then some 8                             -- interval timetz
   else if typID ∈ [602, 604] then some 8                               -- path polygon
   else if typID ∈ [3926, 3908, 3910] then some 8                       -- int8range tsrange tstzrange
+  else if typID ∈ [4533, 4534, 4536] then some 8                       -- tsmultirange tstzmultirange int8multirange (rows fix 08)
+  else if typID ∈ [2970, 5038, 5069] then some 8                       -- txid_snapshot pg_snapshot xid8
+  else if typID ∈ [6152, 6153, 6157, 2949, 5039, 271] then some 8      -- the array types of those six
   else if typID ∈ [23, 26, 700, 1082, 28, 29] then some 4              -- int4 oid float4 date xid cid
   else if typID ∈ [25, 1043, 1042, 17, 114, 3802, 142] then some 4     -- text varchar bpchar bytea json jsonb xml
   else if typID ∈ [1700, 869, 650] then some 4                         -- numeric inet cidr
